@@ -234,6 +234,19 @@ class World:
                     kw["event_type"] = EVTY[op["ty"]]
                 if kw:          # rmonevent() without any criterion would also remove the harness' tap
                     self.client.rmonevent(**kw)
+            elif o == "edit":
+                dev = self.client.get_device(op["dev"])
+                vec = dev.get_vector(op["vec"]) if dev else None
+                el = vec.get_element(op["el"]) if vec else None
+                if el is not None:
+                    kind = type(vec).__name__.replace("Vector", "").lower()
+                    x = op["x"]
+                    el.value = None if x == NONE else (DVAL.BLOB(BLOBS[x], ".bin") if kind == "blob" else x)
+            elif o == "submit":
+                dev = self.client.get_device(op["dev"])
+                vec = dev.get_vector(op["vec"]) if dev else None
+                if vec is not None:
+                    vec.submit()
             elif o == "tick":
                 asyncio.events._set_running_loop(None)
                 self.loop.tick()
@@ -247,6 +260,21 @@ class World:
             del self.loop.unhandled[:]
         obs = self.project()
         ntasks = len([t for t in asyncio.all_tasks(self.loop) if not t.done() and t is not self.task])
+        sent = []
+        for msg in self.client.sent:
+            if not type(msg).__name__.startswith("New"):
+                continue            # (the BLOB handshake the client sends when it first sees a device is not a write)
+            kind = type(msg).__name__.replace("New", "").replace("Vector", "").lower()
+            els = []
+            for ch in msg.children:
+                val = ch.value
+                if kind == "blob":
+                    raw = base64.b64decode(val or "")
+                    val = next((t for t, b in BLOBS.items() if b == raw and int(ch.size) == len(raw)), "B?")
+                els.append([ch.name, NONE if val is None else str(val)])
+            sent.append({"dev": msg.device, "vec": msg.name, "kind": kind, "els": els})
+        del self.client.sent[:]
+        obs["sent"] = sent
         obs.update({"evs": [self.ev_rec(e) for e in self.tap_events], "calls": [list(c) for c in self.calls], "ntasks": ntasks,
                     "raised": raised, "alive": not self.task.done()})
         rec = {k: op[k] for k in op if k != "m"}
@@ -331,6 +359,70 @@ def random_trace(r, length: int) -> List[dict]:
         return out
     finally:
         w.close()
+
+
+def write_trace(r, length: int) -> List[dict]:
+    """client writes (C06): definitions / updates / deletions from the server mixed with assignments and submits by the application"""
+    w = World(r)
+    try:
+        out = []
+        known: List[dict] = []
+        for _ in range(length):
+            x = r.random()
+            writable = [k for k in known if k["kind"] != "light"]
+            if x < 0.40 or not writable:
+                m = random_message(r, known)
+                if m["t"] == "other":
+                    continue
+                if m["t"] == "def":
+                    known = [k for k in known if not (k["dev"] == m["dev"] and k["vec"] == m["vec"])] + [m]
+                elif m["t"] == "del":
+                    known = [k for k in known if not (k["dev"] == m["dev"] and (m["vec"] == NONE or k["vec"] == m["vec"]))]
+                elif m["t"] == "set" and not any(k["dev"] == m["dev"] and k["vec"] == m["vec"] for k in known):
+                    pass
+                op = {"o": "recv", "m": m}
+            elif x < 0.80:
+                k = r.choice(writable)
+                name = r.choice([e[0] for e in k["els"]] + (["nosuch"] if r.random() < 0.1 else []))
+                dom = {"text": ["p", "q", "", "a"], "number": ["1.5", "-0:30", "7"], "switch": ["On", "Off"], "blob": ["B1", "B2"]}[k["kind"]]
+                op = {"o": "edit", "dev": k["dev"], "vec": k["vec"], "el": name, "x": r.choice(dom + ([NONE] if r.random() < 0.15 else []))}
+            else:
+                k = r.choice(writable) if r.random() < 0.9 else {"dev": "C", "vec": "X"}
+                op = {"o": "submit", "dev": k["dev"], "vec": k["vec"]}
+            out.append(w.apply(op))
+        return out
+    finally:
+        w.close()
+
+
+def run_into(v: Verdict, prop: str, tier: str) -> None:
+    """the client-side half of C06: MC_ClientWrite (model) and real Vector.submit / Element.value traces against it"""
+    r = rng("clientwrite")
+    res = tlc.require_ok(tlc.run_tlc("MC_ClientWrite", "MC_ClientWrite.cfg", timeout=1800), "MC_ClientWrite")
+    v.add_tlc(res, "MC_ClientWrite.cfg (P_SubmitExact, P_EditSilent, P_PendingSurvivesUpdate)")
+    if res.violated:
+        v.violation(f"TLC: {res.violated} violated in the client write model", {"kind": "tlc", "tail": res.stdout[-3000:]})
+    hit = tlc.probe_reachable("MC_ClientWrite", "MC_ClientWrite.cfg", ["Probe_TwoPending", "Probe_SubmitEmpty", "Probe_PendingLostByRedefinition"])
+    if not all(hit.values()):
+        raise tlc.MachineryError(f"client write probes not all hit: {hit}")
+    n = 150 if tier == "quick" else 4000
+    traces = [write_trace(r, r.randint(10, 40)) for _ in range(n)]
+    traces = [t for t in traces if t]
+    for ti, t in enumerate(traces):
+        for i, e in enumerate(t):
+            v.evaluations += 1
+            v.count_action("client:" + e["o"])
+            if e["obs"]["sent"]:
+                v.nontrivial(("cw", ti, i))
+    rej, _, dist = tlc.validate_traces("TraceClientMirror", "TraceClientMirror_C06.cfg", traces)
+    v.traces_validated += len(traces) - len(rej)
+    v.notes["client_write_traces"] = {"traces": len(traces), "rejected": len(rej), "submits_with_members": sum(1 for t in traces for e in t if e["obs"]["sent"] and e["obs"]["sent"][0]["els"])}
+    for rj in rej[:10]:
+        e = rj.trace[rj.matched] if rj.matched < len(rj.trace) else None
+        v.violation(f"client write path: step #{rj.matched + 1} {json.dumps({k: e[k] for k in e if k != 'obs'})[:300] if e else None} sent {json.dumps(e['obs']['sent'])[:500] if e else None}: "
+                    f"a submit must hand over one message listing exactly the members assigned since the last submit, with the assigned values",
+                    {"kind": "clientwrite-trace", "ops": [{k: x[k] for k in x if k != "obs"} for x in rj.trace], "rejected_step": rj.matched, "observed": e})
+    v.phase("client_write")
 
 
 def run(prop: str, tier: str) -> int:
